@@ -57,6 +57,43 @@ def run(rep, tier, seed):
     rep.extra['suite_run'] = tail
     suitetrace.validate(rep, 'tests/test_tape_recorder.py + tests/studio/test_studio.py', 'RecorderTrace',
                         suitetrace.recorder_traces(events))
+    # ... and harness-driven histories (faults, discards, interrupts, failing replays): TLC behaviour -> real code under
+    # the hooks -> hook log -> TLC (RecorderTrace): the loop spec -> code -> spec closed
+    harness_traces(rep, seed, 400 if tier == 'quick' else 20000)
+
+
+def harness_traces(rep, seed, n):
+    import json
+    import os
+    import subprocess
+    import sys
+    import tempfile
+    from .. import suitetrace
+    fd, path = tempfile.mkstemp(prefix='pbverif-rectrace-', suffix='.ndjson')
+    os.close(fd)
+    os.remove(path)
+    env = dict(os.environ)
+    env['PLAYBACK_VERIF_TRACE'] = path
+    env['PYTHONPATH'] = os.pathsep.join([p for p in sys.path if p])
+    p = subprocess.run([sys.executable, '-m', 'pbverif.rectrace', str(seed), str(n)], env=env, stdout=subprocess.PIPE,
+                       stderr=subprocess.PIPE, universal_newlines=True, timeout=3000,
+                       cwd=os.path.dirname(os.path.dirname(os.path.dirname(os.path.abspath(__file__)))))
+    events = []
+    if os.path.exists(path):
+        with open(path) as f:
+            for line in f:
+                try:
+                    events.append(json.loads(line))
+                except ValueError:
+                    pass
+        os.remove(path)
+    try:
+        out = json.loads(p.stdout.strip().splitlines()[-1])
+    except Exception:
+        raise RuntimeError('rectrace driver failed: %s %s' % (p.stdout[-300:], p.stderr[-800:]))
+    rep.extra['harness_driven_traces'] = out
+    suitetrace.validate(rep, 'harness-driven histories (%d behaviours)' % out['behaviours'], 'RecorderTrace',
+                        suitetrace.recorder_traces(events))
 
 
 def replay(rep, body):
